@@ -13,8 +13,10 @@ PARALLEL = False
 RULE = ('three streams: (a) random operation sequences (add/get/get_category/relate/unrelate/remove/related/register with '
         'relations/categories) over a pool of introspectables in 3 categories x 3 discriminators x 2 contents, run on a real '
         'Introspector and on the extracted model; (b) every directive family called on a real Configurator with pairwise '
-        'distinct sentinel arguments (booleans set to opposite values, two variants with the booleans flipped), the recorded '
-        'introspectable compared key by key with the regenerated table and with the arguments given; (c) include-nesting '
+        'distinct sentinel arguments (every combination of the directive\'s boolean flags; every directive that has a table '
+        'site has a scenario), every key of the recorded '
+        'introspectable read back and compared with the regenerated table (which argument reaches which key) and with the '
+        'arguments given (documented normalisations by value); (c) include-nesting '
         'programs that override statements. non-trivial = an op sequence containing at least one relate/register-with-relation '
         'and one read-back, or a directive scenario with at least 2 argument-carrying keys; distinct by full case')
 ASSUMPTIONS = ['hash((category, discriminator)) is injective on the discriminators used (dict-key equality of introspectables = same '
@@ -51,7 +53,14 @@ LEVEL_NOTE = ('Trusted: Coq kernel; the translator and its primitive table (leav
 
 # directive/key pairs documented as carrying something else than the same-named argument
 # (request extensions are undocumented; a property/reify callable is recorded as the descriptor built from it)
-DOC_EXCEPTIONS = [('add_request_method', 'property'), ('add_request_method', 'reify'), ('add_request_method', 'callable')]
+# Each entry maps the arguments given to what the key must then hold: ('bool', b) = exactly that boolean, ('skip',) = the
+# documentation promises something else than the argument (not judged), None = the ordinary rule (the key carries the argument).
+DOC_EXPECT = {
+    # "When reify is True, the value of property is assumed to also be True" (add_request_method docstring)
+    ('add_request_method', 'property'): lambda a: ('bool', bool(a.get('property') or a.get('reify'))),
+    # a property/reify callable is recorded as the descriptor built from it
+    ('add_request_method', 'callable'): lambda a: ('skip',) if (a.get('property') or a.get('reify')) else None,
+}
 
 
 def _form(f):
@@ -100,7 +109,8 @@ def facts(src):
             F.coq_texts(s['params']), keys))
     lines.append(';\n'.join(ents) + '].\n')
     # templates.name is the renderer's name (documented), not add_view's name argument
-    exc = [('add_request_method.intr', 'property'), ('add_request_method.intr', 'reify'), ('add_view.tmpl_intr', 'name')]
+    # (the `property` key holds `property or reify`: the documented normalisation, judged by value in the scenario stream)
+    exc = [('add_request_method.intr', 'property'), ('add_view.tmpl_intr', 'name')]
     lines.append('Definition doc_exceptions : list (text * text) := [%s].\n' % '; '.join(
         '(%s, %s)' % (F.coq_text(a), F.coq_text(b)) for a, b in exc))
     lines.append('Definition documented : list (text * list text) := [\n' + ';\n'.join(
@@ -302,15 +312,20 @@ def _scenarios():
     S = {}
 
     def simple(func, **kw):
+        flags = [k for k, v in kw.items() if callable(v) and getattr(v, '_variant', False)]
+
         def build(variant):
+            # variant: 0 / 1 (all flags take their first / second value) or one 0/1 choice per boolean flag
+            sel = dict(zip(flags, variant)) if isinstance(variant, (list, tuple)) else {k: variant for k in flags}
             args = {}
             for k, v in kw.items():
-                args[k] = v(variant) if callable(v) and getattr(v, '_variant', False) else v
+                args[k] = v(sel[k]) if k in sel else v
             return (lambda c: getattr(c, func)(**args)), args
+        build.nflags = len(flags)
         return build
 
     def V(a, b):
-        f = lambda variant: a if variant == 0 else b
+        f = lambda choice: a if choice == 0 else b
         f._variant = True
         return f
 
@@ -323,12 +338,13 @@ def _scenarios():
         S[n] = (n, simple(n, factory=mk(n)))
     S['set_execution_policy'] = ('set_execution_policy', simple('set_execution_policy', policy=mk('ep')))
     S['add_request_method'] = ('add_request_method', simple('add_request_method', callable=mk('rm'), name='rmname',
-                                                            property=False, reify=V(True, False)))
+                                                            property=V(True, False), reify=V(False, True)))
     S['set_locale_negotiator'] = ('set_locale_negotiator', simple('set_locale_negotiator', negotiator=mk('ln')))
 
     def add_translation_dirs(variant):
         spec = 'harness.c20:locale/'
         return (lambda c: c.add_translation_dirs(spec)), {'specs': spec}
+    add_translation_dirs.nflags = 0
     S['add_translation_dirs'] = ('register', add_translation_dirs)
     S['add_renderer'] = ('add_renderer', simple('add_renderer', name='.zz', factory=mk('rf')))
     S['add_route'] = ('add_route', simple(
@@ -350,19 +366,62 @@ def _scenarios():
     S['add_accept_view_order'] = ('add_accept_view_order', simple('add_accept_view_order', value='text/html',
                                                                   weighs_more_than='text/plain', weighs_less_than='application/json'))
 
+    # directives whose entry is built by a helper taking other parameter names: `args` is keyed by the helper's names
+    def custom(nflags, fn):
+        fn.nflags = nflags
+        return fn
+
+    def add_static_view(variant):
+        spec = 'harness.c20:locale/'
+        return (lambda c: c.add_static_view(name='statv', path=spec, cache_max_age=77)), {'name': 'statv', 'spec': spec}
+    S['add_static_view'] = ('add', custom(0, add_static_view))
+
+    def add_cache_buster(variant):
+        spec = 'harness.c20:locale/'
+        explicit = bool(variant[0] if isinstance(variant, (list, tuple)) else variant)
+        cb = mk('cachebust')
+
+        def call(c):
+            c.add_static_view(name='statv', path=spec)
+            c.add_cache_buster(spec, cb, explicit=explicit)
+        return call, {'spec': spec, 'cachebust': cb, 'explicit': explicit}
+    S['add_cache_buster'] = ('add_cache_buster', custom(1, add_cache_buster))
+
+    def override_asset(variant):
+        a, b = 'harness.c20:locale/', 'harness.c11:'
+        return (lambda c: c.override_asset(to_override=a, override_with=b)), {'to_override': a, 'override_with': b}
+    S['override_asset'] = ('override_asset', custom(0, override_asset))
+
+    class _Pol:
+        def __init__(self, tag):
+            self.tag = tag
+
+    def authn(variant):
+        p, z = _Pol('authn'), _Pol('authz')
+
+        def call(c):
+            c.set_authorization_policy(z)
+            c.set_authentication_policy(p)
+        return call, {'policy': p}
+    S['set_authentication_policy'] = ('set_authentication_policy', custom(0, authn))
+
+    def authz(variant):
+        p, z = _Pol('authn'), _Pol('authz')
+
+        def call(c):
+            c.set_authentication_policy(p)
+            c.set_authorization_policy(z)
+        return call, {'policy': z}
+    S['set_authorization_policy'] = ('set_authorization_policy', custom(0, authz))
+
     def deco(view):
         return view
 
-    def add_view(variant):
-        args = dict(view=mk('view'), name='vname', context=IA, containment=IB, request_param='vp',
-                    request_method='PUT', attr=None, xhr=(variant == 0), accept='text/plain', header='X-V',
-                    path_info='/vpi', match_param='a=b', http_cache=37, require_csrf=(variant == 1),
-                    mapper=None, decorator=deco, permission='perm.view')
-
-        def call(c):
-            c.add_view(**args)
-        return call, args
-    S['add_view'] = ('add_view', add_view)
+    S['add_view'] = ('add_view', simple(
+        'add_view', view=mk('view'), name='vname', context=IA, containment=IB, request_param='vp',
+        request_method='PUT', attr=None, xhr=V(True, False), accept='text/plain', header='X-V',
+        path_info='/vpi', match_param='a=b', http_cache=37, require_csrf=V(False, True),
+        mapper=None, decorator=deco, permission='perm.view'))
     return S
 
 
@@ -382,6 +441,8 @@ EXPECT_CATEGORY = {
     'add_permission': 'permissions', 'set_default_csrf_options': 'default csrf view options',
     'set_csrf_storage_policy': 'csrf storage policy', 'add_tween': 'tweens', 'add_view_deriver': 'view derivers',
     'set_view_mapper': 'view mappers', 'add_accept_view_order': 'accept view order', 'add_view': 'views',
+    'add_static_view': 'static views', 'add_cache_buster': 'cache busters', 'override_asset': 'asset overrides',
+    'set_authentication_policy': 'authentication policy', 'set_authorization_policy': 'authorization policy',
 }
 
 _SC = {}
@@ -438,12 +499,12 @@ def _run_directive(case):
                 continue
             for k in sorted(intr.keys()):
                 srcs = sorted(p for p, v in args.items() if v is not None and _match(intr[k], v))
-                out.append([cn, k, srcs])
+                out.append([cn, k, srcs, ('T' if intr[k] else 'F') if isinstance(intr[k], bool) else ''])
             # "action info points at the statement": the statement is issued from this file
             ai = intr.action_info
             fn = getattr(ai, 'file', None) or ''
             out.append([cn, '@action_info', ['statement'] if fn.endswith(os.path.join('harness', 'c20', 'prop.py'))
-                        else ['elsewhere:' + os.path.basename(fn)]])
+                        else ['elsewhere:' + os.path.basename(fn)], ''])
     return [func, out]
 
 
@@ -669,9 +730,15 @@ def _viewrels_spec(case):
 def generate(rng, tier, n):
     # directive scenarios first (finite), then op sequences
     yield {'kind': 'tables'}
+    import itertools
     for name in sorted(scenarios()):
+        nflags = getattr(scenarios()[name][1], 'nflags', 0)
         for variant in (0, 1):
             yield {'kind': 'directive', 'name': name, 'variant': variant}
+        # every combination of the directive's boolean flags (so that a mix-up between two flags shows)
+        for combo in itertools.product((0, 1), repeat=nflags):
+            if nflags >= 2 and len(set(combo)) > 1:
+                yield {'kind': 'directive', 'name': name, 'variant': list(combo)}
     for j in range(n):
         if j % 10 == 9:
             yield gen_viewrels(rng)
@@ -688,7 +755,12 @@ def valid(case):
                                                    and (v['perm'] is None or isinstance(v['perm'], int))
                                                    for i, v in enumerate(case['views'])) and isinstance(case['two_commits'], bool)
         if case['kind'] == 'directive':
-            return case['name'] in scenarios() and case['variant'] in (0, 1)
+            if case['name'] not in scenarios():
+                return False
+            v = case['variant']
+            if isinstance(v, list):
+                return len(v) == getattr(scenarios()[case['name']][1], 'nflags', 0) and all(x in (0, 1) for x in v)
+            return v in (0, 1)
         if case['kind'] == 'program':
             n = len(case['nodes'])
             if n < 1 or len(case['parent']) != n or case['parent'][0] is not None:
@@ -816,20 +888,30 @@ def spec_holds(case, obs, spec):
     _, build = scenarios()[case['name']]
     _, args = build(case['variant'])
     want = EXPECT_CATEGORY.get(case['name'])
-    if want is not None and not any(cn == want for cn, _, _ in rows):
+    if want is not None and not any(r[0] == want for r in rows):
         return False            # the statement took effect but left no entry in its documented category
-    for cn, k, srcs in rows:
+    for row in rows:
+        cn, k, srcs = row[0], row[1], row[2]
+        bval = row[3] if len(row) > 3 else ''
         if k == '@action_info':
             if srcs != ['statement']:
                 return False
             continue
+        exp = DOC_EXPECT.get((case['name'], k))
+        exp = exp(args) if (exp is not None and cn == want) else None
+        if exp is not None:
+            if exp[0] == 'bool' and bval != ('T' if exp[1] else 'F'):
+                return False        # documented normalisation of a flag: the entry must hold exactly that boolean
+            continue
         site = [s for s in sites if s['category'] == cn]
+        if not site:
+            continue            # an entry built by another directive this one calls (judged in that directive's scenario)
         forms = [kk['form'] for s in site for kk in s['keys'] if kk['key'] == k]
         for f in forms:
             if f[0] in ('arg', 'norm') and f[-1] in args and args[f[-1]] is not None and f[-1] not in srcs \
                     and 'expr' not in f[1].split('+') and not f[1].startswith('local:'):
                 return False        # table says "records argument p" but the recorded value is not p
-        if k in args and args[k] is not None and (case['name'], k) not in DOC_EXCEPTIONS and cn != 'templates':
+        if k in args and args[k] is not None and cn != 'templates':
             if k not in srcs:
                 return False        # property: key named like an argument does not carry that argument
     return True
